@@ -82,13 +82,18 @@ def selftest(ctx, dump):
     """Corrupt the recorded trace in two ways; TLC must reject both."""
     import json
     lines = open(dump).read().splitlines()
-    # (1) make the first sink write read the array of the buffer pooled just before
-    pidx0 = next((i for i, l in enumerate(lines) if '"bufput"' in l), None)
-    put = json.loads(lines[pidx0]) if pidx0 is not None else None
-    idx = next((i for i, l in enumerate(lines) if '"sinkstart"' in l and pidx0 is not None and i > pidx0
-                and json.loads(l)["g"] == put["g"]), None)
-    if put is None or idx is None:
-        raise vf.Infra("self-test: trace has no bufput/sinkstart events")
+    # (1) make a sink write read the array of the buffer pooled in the line just before it (adjacent lines of one
+    #     goroutine: nothing can have happened to that buffer in between, so the corruption is always a violation)
+    pidx0 = idx = None
+    for i in range(len(lines) - 1):
+        if '"bufput"' in lines[i] and '"sinkstart"' in lines[i + 1]:
+            a, b2 = json.loads(lines[i]), json.loads(lines[i + 1])
+            if a["g"] == b2["g"] and a.get("arr"):
+                pidx0, idx = i, i + 1
+                break
+    if idx is None:
+        raise vf.Infra("self-test: trace has no adjacent bufput/sinkstart pair")
+    put = json.loads(lines[pidx0])
     ev = json.loads(lines[idx]); ev["arr"] = put["arr"]
     bad1 = lines[:idx] + [json.dumps(ev)] + lines[idx + 1:]
     # (2) drop the first bufput: the next bufget of that buffer happens while it is still held
